@@ -114,7 +114,8 @@ def reqOrder (o : Opts) (m : ModelP) : List String :=
   m.graph.nodes.flatMap (reqOfNode o) ++ m.graph.inputs ++ m.graph.outputs
 
 /-- the table of the unique-name mapper at the end of the export (`rename=False`) -/
-def finalTable (o : Opts) (m : ModelP) : List (String × String) := uniqRun [] (reqOrder o m)
+def finalTable (tys : List String) (o : Opts) (m : ModelP) : List (String × String) :=
+  uniqRun (reservedTable (reservedNames tys [m.opsets] [])) (reqOrder o m)
 
 /-- the statement `_translate_node` prints for a plain node when names are printed by `f` -/
 def straightStmtF (f : String → String) (o : Opts) (opsets : List (String × Nat)) (n : Node) : SStmt :=
@@ -129,8 +130,8 @@ def importOf (dv : String × Nat) : String × String :=
 
 /-- the exporter on the fragment: every name is printed by the final table of the unique-name mapper
     (a name keeps the Python name of its first request) -/
-def exportStraight (o : Opts) (m : ModelP) : SProg :=
-  let f := pyT (finalTable o m)
+def exportStraight (tys : List String) (o : Opts) (m : ModelP) : SProg :=
+  let f := pyT (finalTable tys o m)
   { deco := defaultOpsetArg o m.opsets
     name := m.funName
     imports := m.opsets.map importOf
@@ -173,7 +174,7 @@ def progToGraph (p : SProg) : Graph :=
   .mk p.params p.rets [] 0 (p.body.map (stmtToNode p.imports))
 
 /-- the renaming the export applied: ONNX name ↦ Python name (final table) -/
-def tblF (T : List (String × String)) (x : String) : String := (T.lookup x).getD ""
+def tblF (T : List (String × String)) (x : String) : String := if x = "" then "" else (T.lookup x).getD ""
 
 /-! ## the fragment -/
 
@@ -206,9 +207,15 @@ def aliasOk (opsets : List (String × Nat)) : Bool :=
   | some v => (opsets.map importOf).lookup (opsetName "" v) == some ""
   | none => false
 
+/-- the reserved module-level names are usable as "already used" Python names: non-empty, no keyword, no leading `-`
+    (true of every header the exporter prints; checked, not assumed) -/
+def reservedOk (res : List String) : Bool :=
+  res.all (fun r => r != "" && !(kwlistL.contains r.toList) && r.toList.head? != some '-')
+
 /-- the fragment: `rename=False`, `inline_const=False`, no initializers, straight-line nodes, named function,
     non-empty graph inputs/outputs, no graph input returned directly, no value returned twice -/
-def straightModel (o : Opts) (m : ModelP) : Bool :=
+def straightModel (tys : List String) (o : Opts) (m : ModelP) : Bool :=
+  reservedOk (reservedNames tys [m.opsets] []) &&
   !o.rename && !o.inlineConst
   && m.graph.inits.isEmpty && m.graph.nSparse == 0 && aliasOk m.opsets
   && !(m.functionName.isNone && m.graphName == "")
